@@ -17,9 +17,9 @@ Definition upstream_request (req : request) (uri' : bytes) : request :=
      r_headers := r_headers req ++ [(XFF, a_origin (r_addr req))]; r_content := r_content req; r_addr := r_addr req |}.
 Definition upstream_bytes (req : request) (uri' : bytes) : bytes := serialize_request (upstream_request req uri').
 
+(* the body (the wording of the page is read from http/proxy.rs on every run: TablesHttp.bad_gateway_page) *)
 Definition bad_gateway : response :=
-  {| s_version := str_HTTP11; s_status := status_index 502; s_headers := [];
-     s_body := [60;104;116;109;108;62;60;98;111;100;121;62;60;104;49;62;53;48;50;32;66;97;100;32;71;97;116;101;119;97;121;60;47;104;49;62;60;47;98;111;100;121;62;60;47;104;116;109;108;62] |}.
+  {| s_version := str_HTTP11; s_status := status_index 502; s_headers := []; s_body := bad_gateway_page |}.
 
 (* what the upstream does *)
 Inductive upstream : Type :=
